@@ -153,7 +153,7 @@ func runQuotaGuard(c *core.Ctx) {
 		}
 	}
 	id := msg + ".SubscriptionID"
-	c.Check(an.PathOf(mu.Key) == id && isConstBool(mu.Value, true), nil, fname(c, req), "insert", P.Pos(mu.Pos()), "the REQ's subscription id is entered into the set", "the set is not keyed by the REQ's subscription id: "+an.PathOf(mu.Key))
+	c.Check(an.PathOf(mu.Key) == id && (isConstBool(mu.Value, true) || isEmptyStruct(mu.Value.Type())), nil, fname(c, req), "insert", P.Pos(mu.Pos()), "the REQ's subscription id is entered into the set", "the set is not keyed by the REQ's subscription id: "+an.PathOf(mu.Key))
 	// reject set
 	var rej, fwd *ssa.Return
 	for _, r := range classifyClientReturns(P, req, paramIdx(req, msg), 0) {
